@@ -113,6 +113,10 @@ class Run:
             else:
                 summary[n] = len(es.list_events(n))
         logged = {n: c for n, c in logged.items() if n != "process_stats"}
+        if self.scn.get("jobevents") and not self.scn.get("faults") and not self.scn.get("nodefaults"):
+            # ground truth for the jobs' own events: what the job processes wrote (a line that reached no log file is lost)
+            logged["verif_job_event"] = getattr(self.w, "jobevents_written", 0)
+            summary.setdefault("verif_job_event", 0)
         self.w.ev(e="eventsobs", logged=sorted([n, c] for n, c in logged.items()), summary=sorted([n, c] for n, c in summary.items()))
 
     def finish(self):
